@@ -47,6 +47,8 @@ def gen_fa(rng, kind=None, max_states=5, max_symbols=3, max_trans=9, plain_symbo
     sympool = MULTI_SYMBOLS if rng.chance(0.15) else SYMBOLS
     symbols = sympool[:nsym]
     symmode = "str" if plain_symbols else rng.pick(["V", "str", "str"])
+    if not plain_symbols and rng.chance(0.07):
+        symmode = "mixed"
     peps = 0.0 if kind != "enfa" else rng.pick([0.0, 0.15, 0.3, 0.5])
     nt = rng.randint(0, max_trans)
     trans = []
@@ -85,6 +87,8 @@ def gen_fa(rng, kind=None, max_states=5, max_symbols=3, max_trans=9, plain_symbo
             valmode = "str"
         if symmode == "V":
             symmode = "str"
+    if symmode == "mixed" and hashes:
+        hashes = {k: v for k, v in hashes.items() if not k.startswith("Y:")} or None
     case = {"kind": kind, "valmode": valmode, "symmode": symmode, "states": states,
             "symbols": symbols, "hash": hashes, "hashmode": mode, "trans": trans, "starts": starts,
             "finals": finals, "ctor": rng.chance(0.25), "ctor_all": rng.chance(0.5), "ctor_tf": rng.chance(0.12), "words_as_symbols": rng.chance(0.3),
@@ -127,7 +131,13 @@ def sval(case, name):
     return name
 
 
+MIXED_SYMS = {"a": "a", "b": 1, "c": 2.5, "ab": "ab", "abc": 7, "x": "x", "y": 3, "zz": "zz", "d": 4, "e": "e"}
+
+
 def yval(case, name):
+    if case["symmode"] == "mixed":
+        # symbols of mutually incomparable types in one alphabet (str, int, float)
+        return MIXED_SYMS.get(name, name)
     if case["symmode"] == "V":
         h = case["hash"].get("Y:" + name)
         if h is None:
@@ -351,6 +361,8 @@ def shrink_fa(case):
             yield mk(valmode="str", hash={k: v for k, v in case["hash"].items() if not k.startswith("S:")} or None)
         if case["symmode"] == "V":
             yield mk(symmode="str", hash={k: v for k, v in case["hash"].items() if not k.startswith("Y:")} or None)
+    if case["symmode"] == "mixed":
+        yield mk(symmode="str")
     # plain names
     if case["valmode"] != "int" and any(s not in PLAIN_STATES for s in case["states"]):
         ren = {s: PLAIN_STATES[i] for i, s in enumerate(case["states"])} if len(case["states"]) <= len(PLAIN_STATES) else None
